@@ -83,6 +83,7 @@ REWRITES = {
     "string_clone_self_value": ("re", r"self\.value\.clone\(\)", r"string_clone(&self.value)", "String::clone -> shim (`r@ == s@`)"),
     "string_clone_self_name_value": ("re", r"self\.name\.value\.clone\(\)", r"string_clone(&self.name.value)", "String::clone -> shim (`r@ == s@`)"),
     "call_argument_loop": ("loop_to_call", r"for\s*\(i,\s*\(arg,\s*param\)\)\s*in\s*std::iter::zip\(", "call_arguments_loop(&mut self.arguments, &proc_entry.parameters, &self.name, table);", "R6: the argument loop of CallStatement::analyze is replaced by a call whose contract is `the lifted loop body (verified as call_argument_rule) is applied to argument i and parameter i for every i below both lengths`"),
+    "ranges_contain": ("re", r"local_declarations\.contains\(&token\.range\)", r"ranges_contain(&local_declarations, &token.range)", "Vec::contains (slice::contains) has no vstd spec -> shim with the std call"),
     "drop_const_fn": ("re", r"\bconst fn\b", "fn", "const fn that calls non-const shim"),
 }
 
